@@ -407,10 +407,12 @@ inductive ItemsAl : List Item → List PTok → Prop
   | tk (t : PTok) (rest : List PTok) (items : List Item) (s : HTok) : t.tok.isWhitespace = false → t.tok ≠ .concat →
       s.tok = t.tok → ItemsAl items rest → ItemsAl (.tok s :: items) (t :: rest)
 
-/-- what is known about the hide set of an item before the hide set of the invocation is added: empty (a token of
-the replacement list), or the token names no enabled macro (it came out of an argument, or out of a paste) -/
+/-- what is known about the hide set of an item before the hide set of the invocation is added: names of disabled
+entries only (empty for a token of the replacement list; the hide set of the tokens around the invocation for a token
+of an argument in which nothing was expanded), or the token names no enabled macro (it came out of an expanded
+argument, or out of a paste) -/
 def GoodItem (env : List Entry) : Item → Prop
-  | .tok s => s.hide = [] ∨ ∀ n, s.tok = .id n → ∀ e ∈ env, e.m.name = n → e.disabled = true
+  | .tok s => (∀ x ∈ s.hide, x ∈ disabledNames env) ∨ ∀ n, s.tok = .id n → ∀ e ∈ env, e.m.name = n → e.disabled = true
   | _ => False
 
 theorem doPastes_nil (done : List Item) : doPastes done [] = .ok done.reverse := by
@@ -806,7 +808,7 @@ theorem itemsP_good (env : List Entry) (largs eargs : List (List HTok)) (mb : Li
               exact he a (List.mem_of_getElem? hg) s hs
         · exact ih _ hl'' it hm
       · rcases List.mem_cons.mp hit with rfl | hit
-        · exact Or.inr (Or.inl rfl)
+        · exact Or.inr (Or.inl (fun x hx => by cases hx))
         · exact ih _ hl'' it hit
 
 /-- **`subst` on a replacement list with `##`**: the result spells the paste normal form of the replacement list as
@@ -1088,8 +1090,9 @@ theorem relP_body {env : List Entry} {n : String} {mi : Nat} {e : Entry} (hsel :
     obtain ⟨s, hs, rfl⟩ := List.mem_map.mp ht
     simp only at hk hy
     rcases hgood s hs with h | h
-    · rw [h, List.nil_append] at hy
-      exact (hdn y).mpr (hsub y hy)
+    · rcases List.mem_append.mp hy with hy | hy
+      · exact h y hy
+      · exact (hdn y).mpr (hsub y hy)
     · exfalso
       obtain ⟨e', he', hname, hen'⟩ := hen
       have := h k hk e' he' hname
@@ -1107,6 +1110,43 @@ theorem goodItem_of_onlyDisabled {env : List Entry} {mi : Nat} (a' : List PTok) 
   obtain ⟨pt, hpt, hptk⟩ := mem_ppTokens hmem
   obtain ⟨e0, he0, hm, himp⟩ := mem_disable he'
   exact himp (hod pt hpt k hptk e0 he0 (by rw [← hm]; exact hname))
+
+/-- the tokens of an argument in which nothing was expanded: the hide set of the tokens around the invocation -/
+theorem goodItem_of_exact {env : List Entry} {n : String} {mi : Nat} {e : Entry} (hsel : Selects env n mi e)
+    (ea : List HTok) (hex : Exact env ea) : ∀ s ∈ ea, GoodItem (disable env mi) (.tok s) := by
+  intro s hs
+  by_cases hen : ∃ k, s.tok = .id k ∧ ∃ e0 ∈ env, e0.m.name = k ∧ e0.disabled = false
+  · left
+    obtain ⟨k, hk, he⟩ := hen
+    intro x hx
+    rw [disabledNames_disable hsel.get]
+    exact Or.inr (hex s hs k hk he x hx)
+  · right
+    intro k hk e' he' hname
+    obtain ⟨e0, he0, hm, himp⟩ := mem_disable he'
+    cases hd : e0.disabled with
+    | true => exact himp hd
+    | false => exact absurd ⟨k, hk, e0, he0, by rw [← hm]; exact hname, hd⟩ hen
+
+/-- a list without `##` none of whose tokens starts an operation: the only derivation keeps every token -/
+theorem tameP_allKept {env : List Entry} {a a' : List PTok} (h : TameP env a a') :
+    AllKept env a → NoConcat a → a' = a := by
+  induction h with
+  | nil env => intro _ _; rfl
+  | keep env t rest out _ _ _ ih => intro hk hnc; rw [ih hk.2 (fun x hx => hnc x (by simp [hx]))]
+  | paste env t1 t2 m rest rest2 out _ hs _ _ _ _ _ =>
+    intro _ hnc
+    exfalso
+    obtain ⟨W1, c, W2, hrest, hc, _, _, _, _⟩ := splitPaste_spec rest rest2 t2 hs
+    exact hnc c (by rw [hrest]; simp) hc
+  | invoke env n b rest mi e rest' args args' body' R out hsel hra _ _ _ _ _ _ _ _ _ _ _ _ =>
+    intro hk _
+    exfalso
+    rcases hk.1.2 n rfl e (List.mem_of_getElem? hsel.get) hsel.name with hd | ⟨hf, hsp⟩
+    · rw [hsel.enabled] at hd; cases hd
+    · obtain ⟨bb, tail, htrim, _, _⟩ := readArgs_fn e.m rest rest' args hf hra
+      rw [startsParen_of_trimStartAll rest bb tail htrim] at hsp
+      cases hsp
 
 /-- **A tame derivation with `##` is what the reference algorithm computes.** -/
 theorem tameP_spec {env : List Entry} {l out : List PTok} (h : TameP env l out) :
@@ -1304,7 +1344,8 @@ theorem tameP_spec {env : List Entry} {l out : List PTok} (h : TameP env l out) 
             · cases h
             · cases ha0
           have hexp : ∀ (i : Nat) (la : List HTok), largs[i]? = some la →
-              ∃ ea, SExp (specTable env) la ea ∧ ∃ a', args'[i]? = some a' ∧ RelOut env ea a' := by
+              ∃ ea, SExp (specTable env) la ea ∧ ∃ a', args'[i]? = some a' ∧ RelOut env ea a' ∧
+                (OnlyDisabled env a' ∨ Exact env ea) := by
             intro i la hla
             have hi : i < largs.length := (List.getElem?_eq_some_iff.mp hla).1
             have hi2 : i < args.length := by rw [← hargsrel.1]; exact hi
@@ -1316,16 +1357,24 @@ theorem tameP_spec {env : List Entry} {l out : List PTok} (h : TameP env l out) 
             have hrela : RelP env la args[i] :=
               ⟨by rw [hargsrel.2 i la _ hla ha]; exact pn_of_noConcat env _ hnca,
                 fun x hx => hrel.sup x (hinreg x (hmem x hx)), fun x hx => hrel.sub x (hinreg x (hmem x hx))⟩
-            obtain ⟨ea, hsea, hroea⟩ := ihargs i _ _ ha ha' hwf la hrela
-            exact ⟨ea, hsea, _, ha', hroea⟩
+            rcases hod i _ _ ha ha' with hd | hak
+            · obtain ⟨ea, hsea, hroea⟩ := ihargs i _ _ ha ha' hwf la hrela
+              exact ⟨ea, hsea, _, ha', hroea, Or.inl hd⟩
+            · -- nothing happens in this argument on either side: the reference keeps the very same tokens
+              have heq : args'[i] = args[i] := tameP_allKept (hargs i _ _ ha ha') hak hnca
+              have hrel0 : Rel env la args[i] :=
+                ⟨hargsrel.2 i la _ hla ha, hrela.sup, hrela.sub⟩
+              exact ⟨la, allKept_sexp _ hak la hrel0, _, ha',
+                ⟨by rw [heq]; exact hrel0.toks, hrela.sup⟩, Or.inr hrel0.sub⟩
           obtain ⟨eargs0, helen, heargs⟩ := exists_list largs
-            (fun i la ea => SExp (specTable env) la ea ∧ ∃ a', args'[i]? = some a' ∧ RelOut env ea a') hexp
+            (fun i la ea => SExp (specTable env) la ea ∧ ∃ a', args'[i]? = some a' ∧ RelOut env ea a' ∧
+              (OnlyDisabled env a' ∨ Exact env ea)) hexp
           obtain ⟨hfix, hfixlen⟩ := fixArgs_eq e.m.numParams largs args hargsrel har
           have hnple : e.m.numParams ≤ largs.length := by
             rw [List.length_take] at hfixlen; omega
           have hget : ∀ i, i < e.m.numParams → ∃ la ea a a', largs[i]? = some la ∧ eargs0[i]? = some ea ∧
               args[i]? = some a ∧ args'[i]? = some a' ∧ la.map (·.tok) = ppTokens a ∧
-              SExp (specTable env) la ea ∧ RelOut env ea a' := by
+              SExp (specTable env) la ea ∧ RelOut env ea a' ∧ (OnlyDisabled env a' ∨ Exact env ea) := by
             intro i hi
             have h1 : i < largs.length := by omega
             have h2 : i < eargs0.length := by omega
@@ -1333,8 +1382,8 @@ theorem tameP_spec {env : List Entry} {l out : List PTok} (h : TameP env l out) 
             have hla : largs[i]? = some largs[i] := List.getElem?_eq_getElem h1
             have hea : eargs0[i]? = some eargs0[i] := List.getElem?_eq_getElem h2
             have ha : args[i]? = some args[i] := List.getElem?_eq_getElem h3
-            obtain ⟨hse, a', ha', hro⟩ := heargs i _ _ hla hea
-            exact ⟨_, _, _, a', hla, hea, ha, ha', hargsrel.2 i _ _ hla ha, hse, hro⟩
+            obtain ⟨hse, a', ha', hro, hok⟩ := heargs i _ _ hla hea
+            exact ⟨_, _, _, a', hla, hea, ha, ha', hargsrel.2 i _ _ hla ha, hse, hro, hok⟩
           have hpprange : ∀ i, i ∈ pasteParams none e.m.body → i < e.m.numParams := by
             intro i hi
             obtain ⟨t, ht, htk⟩ := mem_pasteParams_arg _ _ _ hi
@@ -1372,7 +1421,7 @@ theorem tameP_spec {env : List Entry} {l out : List PTok} (h : TameP env l out) 
             (by
               intro t ht i hi
               have hlt := (hwfe.argRange t ht i hi).1
-              obtain ⟨la, ea, a, a', _, hea, _, ha', _, _, hro⟩ := hget i hlt
+              obtain ⟨la, ea, a, a', _, hea, _, ha', _, _, hro, _⟩ := hget i hlt
               rw [htakeE i hlt ea hea]
               simp only [List.getD, ha', Option.getD_some]
               exact hro.toks)
@@ -1397,10 +1446,12 @@ theorem tameP_spec {env : List Entry} {l out : List PTok} (h : TameP env l out) 
               rw [List.getElem?_take] at hi
               split at hi
               · rename_i hlt
-                obtain ⟨la, ea2, a, a', _, hea2, _, ha', _, _, hro⟩ := hget i hlt
+                obtain ⟨la, ea2, a, a', _, hea2, _, ha', _, _, hro, hok⟩ := hget i hlt
                 rw [hea2] at hi
                 cases hi
-                exact goodItem_of_onlyDisabled a' ea (hod a' (List.mem_of_getElem? ha')) hro.toks s hs
+                rcases hok with hd | hex
+                · exact goodItem_of_onlyDisabled a' ea hd hro.toks s hs
+                · exact goodItem_of_exact hsel ea hex s hs
               · cases hi)
             hpnb
           have hrelb := relP_body hsel (n :: ts.hide.filter (hs'.contains ·)) outb body'
